@@ -215,7 +215,8 @@ let ref_op (x : obj) (c : cur) (ret : string option) : refres =
   | "difference_assign" -> let y = arg () in { rdim = n; pieces = diff_pieces xs y.gamma; claim = Best; within_pre = true }
   | "concatenate_assign" -> let y = arg () in { (same (concatenate (nat n) xs y.gamma)) with rdim = n + y.dim }
   | "topological_closure_assign" -> same (relax xs)
-  | "closure" | "reduction" | "incremental_closure" | "obs_constraints" | "obs_minimized_constraints" | "obs_is_empty" -> same xs
+  | "closure" | "reduction" | "obs_constraints" | "obs_minimized_constraints" | "obs_is_empty" -> same xs
+  | "incremental_closure" -> ignore (nexti c); let k = read_con c n in same (union_sys xs (con_sys k))
   | "assign" -> let y = arg () in same y.gamma
   | "affine_image" | "affine_preimage" ->
       let v = nexti c in let d = nextz c in let e = read_expr_n c in check_den d;
@@ -292,7 +293,8 @@ let ref_op (x : obj) (c : cur) (ret : string option) : refres =
       end
   | "time_elapse_assign" ->
       let y = arg () in
-      (* closure of { x + t*y' | x in X, y' in Y, t >= 0 } for closed non-empty X, Y:  q = x + z, X(x), A z >= t b, t >= 0 *)
+      (* { x + t*y' | x in X, y' in Y, t >= 0 } = X  u  { x + z | x in X, exists t > 0, z/t in Y }:
+         q = x + z, X(x), a.z + b*t (>= | > | =) 0 for every constraint a.y + b (>= | > | =) 0 of Y, t > 0 *)
       let ys = y.gamma in
       (match nonempty xs, nonempty ys with
        | Some true, Some true ->
@@ -300,18 +302,17 @@ let ref_op (x : obj) (c : cur) (ret : string option) : refres =
            (* coordinates: q at 0..n-1 (result), x at m..m+n-1, z at m+n..m+2n-1, t at m+2n *)
            let fx k = nat (m + int_of_nat k) and fz k = nat (m + n + int_of_nat k) in
            let tt = m + 2 * n in
-           let homog_c (cc : cstr) = { coefs = (rename_c fz { cc with cst = Z0 }).coefs; cst = Z0; strict = false } in
            let add_t (coefs : z list) (b : z) = (* coefs . z + b * t *)
              let l = List.length coefs in coefs @ List.init (max 0 (tt - l)) (fun _ -> Z0) @ [ b ] in
-           let zc = List.map (fun (cc : cstr) -> let h = homog_c cc in { h with coefs = add_t h.coefs cc.cst }) ys.ineqs in
+           let zc = List.map (fun (cc : cstr) -> let h = rename_c fz { cc with cst = Z0 } in { coefs = add_t h.coefs cc.cst; cst = Z0; strict = cc.strict }) ys.ineqs in
            let ze = List.map (fun (e : lin) -> let h = rename_e fz { e with lcst = Z0 } in { lcoefs = add_t h.lcoefs e.lcst; lcst = Z0 }) ys.eqs in
-           let tpos = { coefs = add_t [] (z_of_int 1); cst = Z0; strict = false } in
+           let tpos = { coefs = add_t [] (z_of_int 1); cst = Z0; strict = true } in
            let link = List.init n (fun i -> (* q_i - x_i - z_i = 0 *)
              ladd (lvar (nat i)) (lneg (ladd (lvar (nat (m + i))) (lvar (nat (m + n + i)))))) in
-           let xr = rename_sys fx (relax xs) in
+           let xr = rename_sys fx xs in
            let s = { eqs = link @ ze @ xr.eqs; ineqs = tpos :: zc @ xr.ineqs } in
            let s = elim_vars (List.init (2 * n + 1) (fun i -> nat (m + i))) s in
-           { rdim = n; pieces = [ s ]; claim = Sound; within_pre = false }
+           { rdim = n; pieces = [ xs; s ]; claim = Sound; within_pre = false }
        | Some false, _ | _, Some false -> same false_sys
        | _ -> raise (Skip "undecided emptiness"))
   | _ -> raise (Skip ("op " ^ op))
@@ -322,7 +323,9 @@ let rep kind line v = !report_ref kind line v
 
 let check_state_basic line (o : obj) =
   if is_main o then begin
-    rep "C03:OK" line (if o.ok = 1 then Ok else Fail "OK() returned false");
+    (* OK() re-closes a copy and compares: with upward rounding the closure is not idempotent, so it is only
+       required of the exact carriers *)
+    if o.car = "q" || o.car = "z" then rep "C03:OK" line (if o.ok = 1 then Ok else Fail "OK() returned false") else (if o.ok <> 1 then bump "OK-false-inexact-carrier");
     (match o.bad with Some b -> rep "C03:entry" line (Fail b) | None -> ());
     (* constraints() denotes the same set as the private representation *)
     rep "C03:cons-vs-rep" line (of_ob true "constraints() and the dumped representation denote different sets" (equiv (sys_of_cons o.cons) o.gamma))
